@@ -123,3 +123,27 @@ func init() {
 		New:       "				s, _ := v.(string)\n				for _, part := range strings.Fields(s) {\n					n.Attrs = append(n.Attrs, xml.Attr{\n						Name:  xmlNameFromStr(k),\n						Value: part,\n					})\n				}",
 		ExpectKey: "toXMLFromArray$1|range#1|n.Attrs"})
 }
+
+// round 5: memo values determined by the key; shared objects mutated inside libraries / through parked references
+func init() {
+	AddControl(Control{ID: "c18-memodep-value-from-call-opts", Prop: "C18", Rule: "C18.memodep", File: "pkg/interp/interp.go",
+		Old:       "			s := string(b)\n			q, err := gojq.Parse(s)",
+		New:       "			s := string(b) + opts.filename\n			q, err := gojq.Parse(s)",
+		ExpectKey: "parameter opts of (*pkg/interp.Interp).Eval"})
+	AddControl(Control{ID: "c18-memodep-value-from-raw-name", Prop: "C18", Rule: "C18.memodep", File: "pkg/interp/interp.go",
+		Old:       "			s := string(b)\n			q, err := gojq.Parse(s)",
+		New:       "			s := string(b) + name\n			q, err := gojq.Parse(s)",
+		ExpectKey: "parameter name of"})
+	AddControl(Control{ID: "c18-parked-shared-defragmenter", Prop: "C18", Rule: "C18.parked", File: "format/inet/flowsdecoder/flowsdecoder.go",
+		Old:       "	flowDecoder.ipv4Defrag = ip4defrag.NewIPv4Defragmenter()\n\n	return flowDecoder\n}\n",
+		New:       "	flowDecoder.ipv4Defrag = ipv4Defragmenter\n\n	return flowDecoder\n}\n\nvar ipv4Defragmenter = ip4defrag.NewIPv4Defragmenter()\n",
+		ExpectKey: "field:format/inet/flowsdecoder.Decoder.ipv4Defrag"})
+	AddControl(Control{ID: "c18-parked-library-call-on-global", Prop: "C18", Rule: "C18.parked", File: "format/csv/csv.go",
+		Old:       "func decodeCSV(d *decode.D) any {",
+		New:       "var csvLog = &bytes.Buffer{}\n\nfunc decodeCSV(d *decode.D) any {\n	csvLog.WriteString(\"x\")",
+		ExpectKey: "csvLog"})
+	AddControl(Control{ID: "c18-parked-map-through-field", Prop: "C18", Rule: "C18.parked", File: "format/csv/csv.go",
+		Old:       "func decodeCSV(d *decode.D) any {",
+		New:       "type csvState struct{ seen map[string]int }\n\nvar csvSeen = map[string]int{}\n\nfunc csvBump(s *csvState) { s.seen[\"x\"]++ }\n\nfunc decodeCSV(d *decode.D) any {\n	st := &csvState{}\n	st.seen = csvSeen\n	csvBump(st)",
+		ExpectKey: "field:format/csv.csvState.seen"})
+}
